@@ -440,7 +440,7 @@ theorem bp_status_rule (solve : Solver) (cols0 : List Pat) (d : List Nat) (eps g
     exact gapOk_le _ _ _ htol1 htol2 hg
 
 -- non-vacuity: a node solver that always reports an integral root LP
-example : (Mirror.bpRun (fun cols _ => ⟨cols, [1], [1], some 1, 0⟩) [[1]] [1] 0 (1 / 1000000) 5 5).status
+example : (Mirror.bpRun (fun cols _ => ⟨cols, [1], [1], some 1, 0, 0, none⟩) [[1]] [1] 0 (1 / 1000000) 5 5).status
     = "OPTIMAL" := by decide +kernel
 
 open Mirror in
